@@ -754,11 +754,15 @@ func (s *schemaBuilder) buildFromStruct(decl *entityDecl, st *types.Struct, sche
 			continue
 		}
 
-		_, ignore, _, _, err := parseJSONTag(afld)
+		tagName, ignore, _, _, err := parseJSONTag(afld)
 		if err != nil {
 			return err
 		}
 		if ignore {
+			continue
+		}
+		if tagName != "" {
+			// an embedded field with a name in its json tag is encoded as a field of that name, not inlined
 			continue
 		}
 
@@ -821,7 +825,7 @@ func (s *schemaBuilder) buildFromStruct(decl *entityDecl, st *types.Struct, sche
 		fld := st.Field(i)
 		tg := st.Tag(i)
 
-		if fld.Embedded() {
+		if fld.Embedded() && jsonTagName(tg) == "" {
 			continue
 		}
 
@@ -1153,6 +1157,15 @@ func (t tagOptions) Contain(option string) bool {
 
 func (t tagOptions) Name() string {
 	return t[0]
+}
+
+// jsonTagName yields the name given by the json key of a struct tag, if any
+func jsonTagName(tag string) string {
+	name, _, _ := strings.Cut(reflect.StructTag(tag).Get("json"), ",")
+	if name == "-" {
+		return ""
+	}
+	return name
 }
 
 func parseJSONTag(field *ast.Field) (name string, ignore, isString, omitEmpty bool, err error) {
